@@ -494,9 +494,13 @@ func CheckMain(id, tier string, workers int) int {
 	if ev.Assumptions == nil {
 		ev.Assumptions = []string{}
 	}
-	os.MkdirAll(filepath.Join(verifDir(), "evidence"), 0o755)
+	evDir := filepath.Join(verifDir(), "evidence")
+	if d := os.Getenv("VERIF_EVIDENCE_DIR"); d != "" {
+		evDir = d // runs against deliberately broken trees (tools/mutant.sh, tools/mutsweep.sh) must not overwrite the evidence of the real tree
+	}
+	os.MkdirAll(evDir, 0o755)
 	eb, _ := json.MarshalIndent(ev, "", " ")
-	os.WriteFile(filepath.Join(verifDir(), "evidence", id+".json"), eb, 0o644)
+	os.WriteFile(filepath.Join(evDir, id+".json"), eb, 0o644)
 
 	fmt.Printf("%s %s: cases=%d impl-calls=%d nontrivial=%d violations=%d (known-matched=%d) exhaustive=%v wall=%.1fs\n",
 		id, tier, states, merged.Evaluations, merged.Nontrivial, merged.ViolationCount, merged.Hist["known-finding"], exhaustive, time.Since(t0).Seconds())
